@@ -47,6 +47,30 @@ Proof.
 Qed.
 Print Assumptions C01_server_positioned.
 
+(* connect-time server-side subscription (ConnectReply.Subscriptions), positioned, the client
+   did not ask to recover it: the code as it stands *)
+Theorem C01_connect_positioned : forall since ep jl fa fs f0 f1 f2 ls s,
+  run (mkCfg VConnect true false since ep jl fa fs false f0 f1 f2) init ls = Some s -> C01Spec (g_log s) (log s).
+Proof.
+  intros. eapply c01_all_schedules; [|eassumption].
+  split; [reflexivity|]. split; [intros; discriminate|]. split; [intros; discriminate|reflexivity].
+Qed.
+Print Assumptions C01_connect_positioned.
+
+(* connect-time subscription recovered through ConnectRequest.Subs: the same reply
+   construction as the client command, so patched holds / as it stands refuted *)
+Theorem C01_connect_recover_patched : forall since ep jl fs f0 f1 f2 ls s,
+  run (mkCfg VConnect true true since ep jl true fs false f0 f1 f2) init ls = Some s -> C01Spec (g_log s) (log s).
+Proof.
+  intros. eapply c01_all_schedules; [|eassumption].
+  split; [reflexivity|]. split; [intros; reflexivity|]. split; [intros; discriminate|reflexivity].
+Qed.
+Print Assumptions C01_connect_recover_patched.
+Theorem C01_connect_recover_refuted :
+  exists s, run cfg_connect_recover init sched_client_drop = Some s /\ ~ C01Spec (g_log s) (log s).
+Proof. exact c01_connect_recover_refuted. Qed.
+Print Assumptions C01_connect_recover_refuted.
+
 (* client subscribe command with recovery: holds for the PATCHED reply construction ... *)
 Theorem C01_client_recover_patched : forall since ep jl fs f0 f1 f2 ls s,
   run (mkCfg VClient true true since ep jl true fs false f0 f1 f2) init ls = Some s -> C01Spec (g_log s) (log s).
@@ -122,7 +146,7 @@ Theorem C01_pending_ends_client : forall c s n pos pep,
 Proof. exact c01_pending_ends_client. Qed.
 Print Assumptions C01_pending_ends_client.
 Theorem C01_pending_ends_server : forall c s n,
-  c_var c = VServer -> pending s = S n -> closed s = false -> cw s = [] ->
+  insuff_disc c = true -> pending s = S n -> closed s = false -> cw s = [] ->
   exists s', step c s LAsyncDisc = Some s' /\
              log s' = log s ++ [FDisconnect code_disc_insufficient] /\ closed s' = true.
 Proof. exact c01_pending_ends_server. Qed.
